@@ -3,7 +3,7 @@ import argparse, json, multiprocessing, os, sys, threading, time, collections
 
 
 def explore(mir_path, repo, harness, outdir, procs=8, timeout=300, max_steps=2_000_000, known=(), concrete=None,
-            query_timeout_ms=10000, export_smt=None):
+            query_timeout_ms=10000, export_smt=None, msg_prefix=None):
     from . import mir, srcinfo, interp
     os.makedirs(outdir, exist_ok=True)
     respath = os.path.join(outdir, harness + '.paths.jsonl')
@@ -20,7 +20,7 @@ def explore(mir_path, repo, harness, outdir, procs=8, timeout=300, max_steps=2_0
     cfg = {
         'feas_timeout_ms': int(3000 * slow), 'fresh_timeout_ms': int(40000 * slow),
         'results_fd': fd, 'sem': multiprocessing.Semaphore(max(1, procs - 1)), 'deadline': t0 + timeout,
-        'max_steps': max_steps, 'known': list(known), 'concrete_inputs': concrete, 'query_timeout_ms': query_timeout_ms, 'export_smt': export_smt,
+        'max_steps': max_steps, 'known': list(known), 'concrete_inputs': concrete, 'query_timeout_ms': query_timeout_ms, 'export_smt': export_smt, 'msg_prefix': msg_prefix,
     }
     I = interp.Interp(prog, src, cfg)
     sys.setrecursionlimit(200000)
@@ -92,11 +92,12 @@ def main():
     ap.add_argument('--max-steps', type=int, default=2_000_000)
     ap.add_argument('--known', default='')
     ap.add_argument('--concrete', default=None, help='comma separated input vector: run one concrete path')
+    ap.add_argument('--msg-prefix', default=None, help='assertions whose message does not start with this prefix belong to a sibling property: recorded, not fatal')
     ap.add_argument('--export-smt', default=None, help='tag: also write shape, path condition and observations of every completed path')
     a = ap.parse_args()
     conc = [int(x) for x in a.concrete.split(',')] if a.concrete not in (None, '') else ([] if a.concrete == '' else None)
     s = explore(a.mir, a.repo, a.harness, a.out, a.procs, a.timeout, a.max_steps,
-                [k for k in a.known.split(',') if k], conc, export_smt=a.export_smt)
+                [k for k in a.known.split(',') if k], conc, export_smt=a.export_smt, msg_prefix=a.msg_prefix)
     nsamp = len(s['samples'])
     with open(os.path.join(a.out, a.harness + '.summary.json'), 'w') as f:
         json.dump(s, f)
